@@ -11,8 +11,8 @@ import (
 	"sort"
 	"strings"
 
-	"github.com/spf13/afero"
 	stfs "github.com/pojntfx/stfs/pkg/fs"
+	"github.com/spf13/afero"
 )
 
 type Entry struct {
